@@ -2397,6 +2397,19 @@ class sptensor:
                 if isinstance(entry, (int, np.integer)) and entry < 0:
                     # Plain int: shape entries may be numpy integers
                     entry = int(self.shape[dim] + entry)  # noqa: PLW2901
+                elif (
+                    isinstance(entry, slice)
+                    and extent is not None
+                    and entry.step is not None
+                    and entry.step < 0
+                ):
+                    # A downward slice ends *before* position 0 when its stop
+                    # underflows, which no non-negative stop can say: name the
+                    # positions themselves
+                    entry = list(range(*entry.indices(extent)))  # noqa: PLW2901
+                    if len(entry) == 0:
+                        # An empty region: nothing is assigned
+                        return None
                 elif isinstance(entry, slice) and extent is not None:
                     start, stop = entry.start, entry.stop
                     if start is not None and start < 0:
